@@ -180,17 +180,21 @@ class Ctx:
             self.broken("generator-selftest", "case classes never generated: %s" % missing)
 
     # ------------------------------------------------------------ Coq
-    def _lock(self):
-        """lock every coq/ directory this property's files live in or depend on (sorted order, so two
-        checks can never wait for each other in a cycle); unrelated properties build concurrently"""
+    def _lock(self, shared_deps=True):
+        """Lock the coq/ directories involved, in sorted order (no cyclic waits).  The property's own
+        directory is locked exclusively; Common and the directories it depends on are locked SHARED when
+        shared_deps (their compiled files are only read), so unrelated properties build concurrently and a
+        long build of one property cannot stall the others.  shared_deps=False takes everything exclusively
+        (used for the first phase of a build, which brings the dependencies up to date)."""
         dirs = sorted(set(["Common", self.pid] + list(self.extra_dirs)))
+        pid = self.pid
 
         class _L:
             def __init__(s, names):
                 s.fs = []
                 for n in names:
-                    f = open(os.path.join(VERIF, ".coq.lock." + n), "w")
-                    fcntl.flock(f, fcntl.LOCK_EX)
+                    f = open(os.path.join(VERIF, ".coq.lock." + n), "a")
+                    fcntl.flock(f, fcntl.LOCK_SH if (shared_deps and n != pid) else fcntl.LOCK_EX)
                     s.fs.append(f)
 
             def close(s):
@@ -198,11 +202,37 @@ class Ctx:
                     f.close()
         return _L(dirs)
 
+    def _dep_targets(self):
+        t = []
+        for d in ["Common"] + [x for x in self.extra_dirs if x != self.pid]:
+            for root, _, files in os.walk(os.path.join(COQ, d)):
+                for fn in sorted(files):
+                    if fn.endswith(".v"):
+                        t.append(os.path.relpath(os.path.join(root, fn), COQ) + "o")
+        return t
+
     def coq_make(self, targets, timeout=1500, remove=(), clean_dirs=()):
-        """build targets with a per-property Makefile (Common + this property's directories) under the tree lock;
-        `remove` (files) and `clean_dirs` (compiled files of whole directories) are deleted under the same lock
-        acquisition, so a concurrent check of the same property cannot rebuild them in between"""
-        lk = self._lock()
+        """build targets with a per-property Makefile (Common + this property's directories).
+        Phase 1 (all locks exclusive, normally a no-op of a second): bring Common and the dependency
+        directories up to date.  Phase 2 (own directory exclusive, dependencies shared): delete `remove`
+        files / `clean_dirs` compiled files and build the targets, so a concurrent check of the same
+        property cannot rebuild them in between and other properties are not held up."""
+        dirs = [self.pid] + [d for d in self.extra_dirs if d != self.pid]
+        mk = ["make", "-f", "Makefile." + self.pid, "-j16"]
+        lk = self._lock(shared_deps=False)
+        try:
+            rc, out = sh(["sh", os.path.join(COQ, "mk_coqproject.sh")] + dirs, cwd=COQ, timeout=120)
+            if rc != 0:
+                return rc, out
+            deps = self._dep_targets()
+            q = subprocess.run(mk + ["-q"] + deps, cwd=COQ, stdout=subprocess.DEVNULL, stderr=subprocess.DEVNULL)
+            if q.returncode != 0:
+                rc, out = sh(mk + deps, cwd=COQ, timeout=timeout)
+                if rc != 0:
+                    return rc, out
+        finally:
+            lk.close()
+        lk = self._lock(shared_deps=True)
         try:
             for f in remove:
                 if os.path.exists(f):
@@ -212,11 +242,7 @@ class Ctx:
                     for fn in files:
                         if fn.endswith((".vo", ".vok", ".vos", ".glob")):
                             os.remove(os.path.join(root, fn))
-            dirs = [self.pid] + [d for d in self.extra_dirs if d != self.pid]
-            rc, out = sh(["sh", os.path.join(COQ, "mk_coqproject.sh")] + dirs, cwd=COQ, timeout=120)
-            if rc != 0:
-                return rc, out
-            return sh(["make", "-f", "Makefile." + self.pid, "-j16"] + list(targets), cwd=COQ, timeout=timeout)
+            return sh(mk + list(targets), cwd=COQ, timeout=timeout)
         finally:
             lk.close()
 
